@@ -399,7 +399,7 @@ class AbstractPathModelDAG(ABC):
                         # And the fraction of edges that we need to cover is self.subpath_constraints_coverage_length
                         coverage_fraction = self.subpath_constraints_coverage_length
                         self.solver.add_constraint(
-                            self.solver.quicksum(self.edge_vars[(e[0], e[1], i)] * self.G[e[0]][e[1]].get(self.length_attr, 1) for e in self.subpath_constraints[j])
+                            self.solver.quicksum(self.edge_vars[(e[0], e[1], i)] * float(self.G[e[0]][e[1]].get(self.length_attr, 1)) for e in self.subpath_constraints[j])
                             >= constraint_length * coverage_fraction
                             * self.subpaths_vars[(i, j)],
                             name=f"7a_i={i}_j={j}",
@@ -438,7 +438,7 @@ class AbstractPathModelDAG(ABC):
                         self.edge_position_vars[(u, v, i)] 
                             == self.solver.quicksum(
                                 self.edge_vars[(edge[0], edge[1], i)] 
-                                * self.G[edge[0]][edge[1]].get(self.length_attr, 1) 
+                                * float(self.G[edge[0]][edge[1]].get(self.length_attr, 1)) 
                                 for edge in self.G.reachable_edges_rev_from[u]
                                 ),
                         name=f"position_u={u}_v={v}_i={i}"
@@ -457,7 +457,7 @@ class AbstractPathModelDAG(ABC):
                     self.path_length_vars[(i)] 
                         == self.solver.quicksum(
                             self.edge_vars[(edge[0], edge[1], i)] 
-                            * self.G[edge[0]][edge[1]].get(self.length_attr, 1) 
+                            * float(self.G[edge[0]][edge[1]].get(self.length_attr, 1)) 
                             for edge in self.G.edges()
                             ),
                     name=f"path_length_constr_i={i}"
